@@ -245,6 +245,47 @@ def check(run, prog, tier):
                 g = here or limit_guard(f, b.id, "__MAX_MAPPING_SIZE__") is not None
                 run.ob("C04-e", inst, bool(g), "%s %s" % (show(n), "tested against MaxMappingSize" if g else "not tested against MaxMappingSize"), f.file, n.get("l"), f.name,
                        what="%s adds a mapping node without the size limit" % f.name)
+    # mapping count written wholesale:  m->count = n  - the counter n must itself be limited where it grows
+    for f in prog.functions():
+        ordn = 0
+        for b, i, n in f.nodes():
+            if not (n.get("k") == "Asg" and n.get("op") in ("=", "+=") and strip(n["L"]).get("k") == "Mem" and strip(n["L"]).get("f") == "count" and strip(n["L"]).get("rec") in ("mapping_s", "mapping_t")):
+                continue
+            r = strip(n["R"])
+            if const_val(r) is not None:
+                continue
+            # a copy of another mapping's count cannot exceed what that mapping was allowed to have
+            if r.get("k") == "Mem" and r.get("f") == "count":
+                continue
+            run.saw(f)
+            inst = "grow:mapping-count:%s:%s:%d" % (rel(f.file), f.name, ordn)
+            ordn += 1
+            ok = limit_guard(f, b.id, "__MAX_MAPPING_SIZE__") is not None
+            why = "the store is dominated by a comparison with MaxMappingSize"
+            if not ok and r.get("k") == "Ref" and r.get("d") in ("local", "param"):
+                incs = [(b2, i2, n2) for b2, i2, n2 in f.nodes() if ((n2.get("k") == "Un" and n2.get("op") == "++" and strip(n2["e"]).get("id") == r.get("id")) or (n2.get("k") == "Asg" and n2.get("op") == "+=" and strip(n2["L"]).get("id") == r.get("id")))]
+                plain = [n2 for b2, i2, n2 in f.nodes() if n2.get("k") == "Asg" and n2.get("op") == "=" and strip(n2["L"]).get("id") == r.get("id") and const_val(n2["R"]) is None and not (strip(n2["R"]).get("k") == "Mem" and strip(n2["R"]).get("f") in ("count", "size"))]
+                def inc_guarded(b2, n2):
+                    c2 = f.branch_cond(b2)
+                    here2 = c2 is not None and mentions(c2, "__MAX_MAPPING_SIZE__") and any(x is n2 or show(x) == show(n2) for x in walk(c2))
+                    return here2 or limit_guard(f, b2.id, "__MAX_MAPPING_SIZE__") is not None
+                resets = [(b2.id, i2) for b2, i2, n2 in f.nodes() if n2.get("k") == "Asg" and n2.get("op") == "=" and strip(n2["L"]).get("id") == r.get("id") and const_val(n2["R"]) == 0]
+                guarded_incs = [(b2, i2, n2) for b2, i2, n2 in incs if inc_guarded(b2, n2)]
+                recount = guarded_incs and all(inc_guarded(b2, n2) or any(f.point_dominates(rp, (b2.id, i2)) and any(f.point_dominates((g[0].id, g[1]), rp) or cfgq.reach_set(f, [g[0].id]) >= {rp[0]} for g in guarded_incs) for rp in resets) for b2, i2, n2 in incs)
+                if incs and not plain and all(inc_guarded(b2, n2) for b2, i2, n2 in incs):
+                    ok = True
+                    why = "%s only grows by increments that are each behind a comparison with MaxMappingSize" % r.get("n")
+                elif incs and not plain and recount:
+                    ok = True
+                    why = "%s is counted up behind a comparison with MaxMappingSize, reset to 0 and counted again over the same nodes" % r.get("n")
+                elif not incs and not plain:
+                    ok = True
+                    why = "%s never grows in this function" % r.get("n")
+                else:
+                    why = "%s = %s: the counter grows (%d increment(s)) without a comparison with MaxMappingSize" % (show(n["L"]), r.get("n"), len(incs))
+            elif not ok:
+                why = "count set to `%s` without a comparison with MaxMappingSize" % show(r)[:40]
+            run.ob("C04-e", inst, ok, why, f.file, n.get("l"), f.name, what="%s builds a mapping whose size is not compared with MaxMappingSize" % f.name)
     # strings
     for f in prog.functions():
         ordn = 0
@@ -303,3 +344,29 @@ def check(run, prog, tier):
                         why = "the limit test `%s` bounds a product whose operands are not bounded individually: it wraps for huge factors" % show(c0)[:70]
             run.ob("C04-e", inst, ok, why, f.file, n.get("l"), f.name, what="%s builds a string %s" % (f.name, "whose size test can wrap" if g is not None else "without the MaxStringLength limit"))
     run.extra["raw_allocation_sites"] = nsite
+
+    # ---- C04-f a refused save_context() is a depth-limit condition: errors raised for it carry the limit flag
+    run.rule("C04-f", "where save_context() refuses (control stack full) and the caller raises an LPC error for it, set_error_state(ES_STACK_FULL) precedes the raise - otherwise an enclosing catch() swallows the depth error; callers that return instead are listed", 1)
+    nref = 0
+    for f in sorted(prog.functions(), key=lambda x: (x.file, x.line)):
+        for bid in sorted(f.reachable()):
+            c = f.branch_cond(bid)
+            if c is None or not any(x.get("k") == "Call" and x.get("fn") == "save_context" for x in walk(c)):
+                continue
+            c0, t0 = normalize_cond(c, True)
+            blk = f.blocks[bid]
+            refused = blk.succ[1] if t0 else blk.succ[0]     # save_context() == 0
+            accepted = blk.succ[0] if t0 else blk.succ[1]
+            # raises reachable on the refusal edge before joining the accepted path
+            region = cfgq.reach_set(f, [refused], avoid_blocks=[accepted])
+            raises = [(b, i, n) for b, i, n in f.calls("error") if b.id in region and f.dominates(refused, b.id)]
+            if not raises:
+                continue
+            nref += 1
+            run.saw(f)
+            for j, (b, i, n) in enumerate(raises):
+                flagged = any(n2.get("fn") == "set_error_state" and b2.id in region and f.point_dominates((b2.id, i2), (b.id, i)) and f.dominates(refused, b2.id) for b2, i2, n2 in f.calls("set_error_state"))
+                run.ob("C04-f", "refused-context:%s:%s:%d" % (rel(f.file), f.name, j), flagged, "error() for a refused save_context() is preceded by set_error_state()" if flagged else
+                       "error() at line %s reports the full control stack without marking it as a limit error: catch() one level up catches it and evaluation continues at MaxCallDepth" % n.get("l"), f.file, n.get("l"), f.name,
+                       what="%s raises a catchable error when the control stack is full" % f.name)
+    run.need(nref >= 1, "callers that raise on a refused save_context() (found %d)" % nref)
